@@ -41,6 +41,7 @@ def dispatch (line : String) : String :=
   | "snippet" :: args => Driver.RenderD.handleSnippet args
   | "indicator" :: args => Driver.RenderD.handleIndicator args
   | "jsonenc" :: args => Driver.RenderD.handleJsonEnc args
+  | "escape" :: args => Driver.RenderD.handleEscape args
   | "cron" :: args => Driver.CronD.handle args
   | "sanitize" :: args => Driver.RenderD.handleSanitize args
   | "exproffsets" :: args => Driver.RenderD.handleExprOffsets args
